@@ -32,6 +32,22 @@ def handleTarget (args : List String) : Option String :=
     some (encodeStr ((if a then ['/'] else []) ++ joinSlash segs))
   | _ => none
 
+/-- `targets <cwd> <logical|-> <n> <spelled>…`: the scan targets after reduction and after
+    nested targets were dropped -/
+def handleTargets (args : List String) : Option String :=
+  match args with
+  | cwd :: logical :: n :: rest => do
+    let c ← decodeStr cwd
+    let cwds ← if logical = "-" then some [splitSlash c []] else do
+      let l ← decodeStr logical
+      some [splitSlash c [], splitSlash l []]
+    let (ts, rest') ← parseStrs (← n.toNat?) rest
+    if !rest'.isEmpty then none else
+    let targets := ts.map (fun s => ({ absolute := s.head? = some '/', segs := splitSlash s [] } : Target))
+    let kept := resolveTargets cwds targets
+    some (" ".intercalate (kept.map (fun r => encodeStr ((if r.1 then ['/'] else []) ++ joinSlash r.2))))
+  | _ => none
+
 /-- `match-key <walked path>`: the key the rule families match and the baseline key -/
 def handleMatchKey (args : List String) : Option String :=
   match args with
